@@ -159,6 +159,11 @@ Emit ==
              \* the malformed initializer first / in the middle: an error must not be forgotten when later initializers decode
              /\ P(LoadCase(<<Imp("", 13)>>, <<st.k, "good">>, FALSE, "none", <<"initializer_" \o st.k, "first_of_two">>))
              /\ P(LoadCase(<<Imp("", 13)>>, <<"good", st.k, "good", "good">>, FALSE, "none", <<"initializer_" \o st.k, "second_of_four">>))
+             \* several malformed initializers in one graph (2, 3, 5, 6, 9 and 17 of them, between good ones): however the decoding is
+             \* organised, the load returns - with an error - and does not wait for anything
+             /\ \A m \in {2, 3, 5, 6, 9, 17} :
+                   /\ P(LoadCase(<<Imp("", 13)>>, [i \in 1..m |-> st.k], FALSE, "none", <<"initializer_" \o st.k, "many_malformed", "all_of_" \o ToString(m)>>))
+                   /\ P(LoadCase(<<Imp("", 13)>>, [i \in 1..(2 * m) |-> IF i % 2 = 0 THEN st.k ELSE "good"], FALSE, "none", <<"initializer_" \o st.k, "many_malformed", "every_other_of_" \o ToString(2 * m)>>))
         [] st.fam = "zip" -> \A dcl \in ZipDeclared, method \in {0, 8} : P(ZipCase(dcl, method))
         [] st.fam = "files" -> \A pert \in {"none", "truncate", "overwrite"} : P(FileCase(st.f, pert))
         [] st.fam = "random" -> P(RandomCase(st.seed))
